@@ -173,6 +173,20 @@ pub fn decode_all_depth_slice<T: Decode + Modeled>(data: &[u8], limit: u32) -> D
 	T::decode_all_with_depth_limit(limit, &mut input).map(|x| x.to_val()).map_err(err_text)
 }
 
+pub fn decode_len<T: crate::codec::DecodeLength>(data: &[u8]) -> Option<usize> {
+	<T as crate::codec::DecodeLength>::len(data).ok()
+}
+
+pub fn counted_slice<T: Decode>(data: &[u8]) -> (bool, u64, usize) {
+	let mut input = data;
+	let (ok, count) = {
+		let mut c = crate::codec::CountedInput::new(&mut input);
+		let r = T::decode(&mut c);
+		(r.is_ok(), c.count())
+	};
+	(ok, count, data.len() - input.len())
+}
+
 #[derive(Debug, Clone)]
 pub struct MemOut {
 	pub result: DecRes,
@@ -275,6 +289,10 @@ pub struct Entry {
 	pub mem_limit: Option<fn(&[u8], usize) -> (DecRes, usize)>,
 	pub mel: Option<fn() -> usize>,
 	pub cel: bool,
+	/// `DecodeLength::len`
+	pub decode_len: Option<fn(&[u8]) -> Option<usize>>,
+	/// decode through `CountedInput` over a slice: (ok, count(), bytes consumed from the slice)
+	pub counted: Option<fn(&[u8]) -> (bool, u64, usize)>,
 }
 
 impl Entry {
@@ -302,6 +320,8 @@ impl Entry {
 			mem_limit: None,
 			mel: None,
 			cel: false,
+			decode_len: None,
+			counted: None,
 		}
 	}
 	pub fn enc<T: Modeled + Encode>(mut self) -> Entry {
@@ -327,6 +347,11 @@ impl Entry {
 		self.decode_all = Some(decode_all_slice::<T>);
 		self.decode_all_depth = Some(decode_all_depth_slice::<T>);
 		self.probe = Some(decode_probe::<T>);
+		self.counted = Some(counted_slice::<T>);
+		self
+	}
+	pub fn len<T: crate::codec::DecodeLength>(mut self) -> Entry {
+		self.decode_len = Some(decode_len::<T>);
 		self
 	}
 	pub fn mem<T: Modeled + DecodeWithMemTracking>(mut self) -> Entry {
@@ -359,6 +384,16 @@ macro_rules! add {
 	)*};
 	($v:ident; enc: $($t:ty),* $(,)?) => {$(
 		$v.push(Entry::new::<$t>(stringify!($t)).enc::<$t>());
+	)*};
+}
+
+macro_rules! mark_len {
+	($v:ident; $($t:ty),* $(,)?) => {$(
+		{
+			let name = stringify!($t);
+			let e = $v.iter_mut().find(|e| e.name == name).unwrap_or_else(|| panic!("zoo: no entry {name}"));
+			*e = e.clone().len::<$t>();
+		}
 	)*};
 }
 
@@ -442,6 +477,10 @@ pub fn zoo() -> Vec<Entry> {
 		(u8, u16, u32, u64, u128, i8, i16, i32, i64, i128, bool, Vec<u8>, u16, Option<u32>, u64, u8, String, Compact<u64>),
 		(Vec<u8>, String), (Compact<u8>, Compact<u128>), (Vec<u32>,), (Compact<u64>,), (String,));
 
+	// tuples of every arity 1..=18 led by a collection (DecodeLength)
+	add!(v; full: (Vec<u16>,), (Vec<u16>, u8), (Vec<u16>, u8, u8), (Vec<u16>, u8, u8, u8), (Vec<u16>, u8, u8, u8, u8), (Vec<u16>, u8, u8, u8, u8, u8), (Vec<u16>, u8, u8, u8, u8, u8, u8), (Vec<u16>, u8, u8, u8, u8, u8, u8, u8), (Vec<u16>, u8, u8, u8, u8, u8, u8, u8, u8), (Vec<u16>, u8, u8, u8, u8, u8, u8, u8, u8, u8), (Vec<u16>, u8, u8, u8, u8, u8, u8, u8, u8, u8, u8), (Vec<u16>, u8, u8, u8, u8, u8, u8, u8, u8, u8, u8, u8), (Vec<u16>, u8, u8, u8, u8, u8, u8, u8, u8, u8, u8, u8, u8), (Vec<u16>, u8, u8, u8, u8, u8, u8, u8, u8, u8, u8, u8, u8, u8), (Vec<u16>, u8, u8, u8, u8, u8, u8, u8, u8, u8, u8, u8, u8, u8, u8), (Vec<u16>, u8, u8, u8, u8, u8, u8, u8, u8, u8, u8, u8, u8, u8, u8, u8), (Vec<u16>, u8, u8, u8, u8, u8, u8, u8, u8, u8, u8, u8, u8, u8, u8, u8, u8), (Vec<u16>, u8, u8, u8, u8, u8, u8, u8, u8, u8, u8, u8, u8, u8, u8, u8, u8, u8),
+		(BTreeMap<u8, u8>, u32), (VecDeque<u8>, String), (LinkedList<u8>,), (BinaryHeap<u8>, bool, u8), (BTreeSet<u8>, u8));
+
 	// strings and holders
 	add!(v; full: String, Box<u32>, Box<String>, Box<[u8; 100]>, Box<Vec<u16>>, Box<()>, Rc<u64>, Rc<Vec<u8>>, Rc<[u32; 4]>,
 		Arc<u16>, Arc<String>, Arc<(u8, Vec<u8>)>, Box<Box<u8>>, Box<Option<Box<u16>>>, Rc<Arc<Box<u32>>>,
@@ -504,6 +543,11 @@ pub fn zoo() -> Vec<Entry> {
 				(Simple, WithCompact, Discr));
 		}
 	}
+	mark_len!(v; Vec<u8>, Vec<u32>, Vec<String>, Vec<()>, Vec<Vec<u8>>, VecDeque<u8>, VecDeque<String>, LinkedList<u8>, LinkedList<String>,
+		BinaryHeap<u8>, BinaryHeap<u32>, BTreeSet<u8>, BTreeSet<String>, BTreeMap<u8, u8>, BTreeMap<u32, String>,
+		(Vec<u16>,), (Vec<u16>, u8), (Vec<u16>, u8, u8), (Vec<u16>, u8, u8, u8), (Vec<u16>, u8, u8, u8, u8), (Vec<u16>, u8, u8, u8, u8, u8), (Vec<u16>, u8, u8, u8, u8, u8, u8), (Vec<u16>, u8, u8, u8, u8, u8, u8, u8), (Vec<u16>, u8, u8, u8, u8, u8, u8, u8, u8), (Vec<u16>, u8, u8, u8, u8, u8, u8, u8, u8, u8), (Vec<u16>, u8, u8, u8, u8, u8, u8, u8, u8, u8, u8), (Vec<u16>, u8, u8, u8, u8, u8, u8, u8, u8, u8, u8, u8), (Vec<u16>, u8, u8, u8, u8, u8, u8, u8, u8, u8, u8, u8, u8), (Vec<u16>, u8, u8, u8, u8, u8, u8, u8, u8, u8, u8, u8, u8, u8), (Vec<u16>, u8, u8, u8, u8, u8, u8, u8, u8, u8, u8, u8, u8, u8, u8), (Vec<u16>, u8, u8, u8, u8, u8, u8, u8, u8, u8, u8, u8, u8, u8, u8, u8), (Vec<u16>, u8, u8, u8, u8, u8, u8, u8, u8, u8, u8, u8, u8, u8, u8, u8, u8), (Vec<u16>, u8, u8, u8, u8, u8, u8, u8, u8, u8, u8, u8, u8, u8, u8, u8, u8, u8),
+		(BTreeMap<u8, u8>, u32), (VecDeque<u8>, String), (LinkedList<u8>,), (BinaryHeap<u8>, bool, u8), (BTreeSet<u8>, u8),
+		(Vec<u8>, String), (Vec<u32>,));
 	let mut seen = std::collections::BTreeSet::new();
 	for e in &v {
 		assert!(seen.insert(e.name), "zoo: duplicate entry {}", e.name);
